@@ -653,7 +653,17 @@ func (ab *dsAddrBook) setAddrs(p peer.ID, addrs []ma.Multiaddr, ttl time.Duratio
 	}
 
 	for _, incoming := range addrs {
+		wasConnected := false
+		if e := addrsMap[string(incoming.Bytes())]; e != nil {
+			wasConnected = ttlIsConnected(time.Duration(e.Ttl))
+		}
 		existingEntry := updateExisting(incoming)
+		if existingEntry != nil && maxCap > 0 && incomingIsUnconnected && wasConnected &&
+			!ttlIsConnected(time.Duration(existingEntry.Ttl)) {
+			// The entry left the connected class in this call: from now on it
+			// counts against the cap, as in the in-memory address book.
+			unconnectedCount++
+		}
 
 		if existingEntry == nil {
 			// 	if signed {
